@@ -13,7 +13,7 @@ import (
 func init() {
 	register(&Prop{
 		ID:          "C05",
-		Explanation: "Decides the wiring that binds token response to authorization request. Nonce: on every saving path of the callback csrf.SetSessionNonce(session) on the loaded CSRF cookie precedes provider.ValidateSession(session)==true; OIDCProvider.ValidateSession returns true only with Verifier.Verify(s.IDToken) ok and (SkipNonce or checkNonce(s)==nil); checkNonce returns nil only after s.CheckNonce(value extracted from the \"nonce\" claim of s.IDToken)==true; SessionState.CheckNonce and encryption.CheckNonce compare the hash of the session nonce with hmac.Equal; every ValidateSession override of an OIDC-embedding provider delegates to it. PKCE: with a challenge method configured the verifier given to NewCSRF is the fresh result of GenerateCodeVerifierString(n), 32<=n<=96, unpadded URL-safe base64 of n crypto/rand bytes; its only other use is GenerateCodeChallenge(method, verifier) whose result is the code_challenge parameter; the verifier redeemed is GetCodeVerifier() of the loaded CSRF cookie, handed unchanged to provider.Redeem, and every Redeem implementation sends it as code_verifier or delegates; the login URL receives only HashOAuthState()/HashOIDCNonce(); the raw nonce/verifier fields have a closed reader set.",
+		Explanation: "Decides the wiring that binds token response to authorization request. Nonce: on every saving path of the callback csrf.SetSessionNonce(session) on the loaded CSRF cookie precedes provider.ValidateSession(session)==true; OIDCProvider.ValidateSession returns true only with Verifier.Verify(s.IDToken) ok and (SkipNonce or checkNonce(s)==nil); checkNonce returns nil only after s.CheckNonce(value extracted from the \"nonce\" claim of s.IDToken)==true; SessionState.CheckNonce and encryption.CheckNonce compare the hash of the session nonce with hmac.Equal; every ValidateSession override of an OIDC-embedding provider delegates to it. PKCE: with a challenge method configured the verifier given to NewCSRF is the fresh result of GenerateCodeVerifierString(n), 32<=n<=96, unpadded URL-safe base64 of n crypto/rand bytes; its only other use is GenerateCodeChallenge(method, verifier) whose result is the code_challenge parameter; the verifier redeemed is GetCodeVerifier() of the loaded CSRF cookie, handed unchanged to provider.Redeem, and every Redeem implementation sends it as code_verifier or delegates; the login URL receives only HashOAuthState()/HashOIDCNonce(); the raw nonce/verifier fields have a closed reader set; the PKCE method in force (ProviderData.CodeChallengeMethod) is written only from the operator's option.",
 		NotDecided:  "identity-provider behaviour; 'never repeated' beyond fresh-per-call crypto/rand (entropy trusted); msgpack reflection reads of the csrf fields (serialisation into the encrypted cookie) are not modelled as reads.",
 		Run:         runC05,
 	})
@@ -26,6 +26,7 @@ func runC05(c *Ctx) {
 	r.Rule("R3-pkce-provenance", "verifier is fresh GenerateCodeVerifierString result, used only for the challenge and the CSRF cookie; challenge parameter is GenerateCodeChallenge(method, verifier)", 3)
 	r.Rule("R4-verifier-shape", "verifier length constant in RFC 7636 range, unpadded URL-safe base64 of crypto/rand bytes", 4)
 	r.Rule("R5-redemption", "redeemed verifier is GetCodeVerifier() of the loaded CSRF cookie and reaches the token request as code_verifier in every Redeem implementation", 8)
+	r.Rule("R7-method-from-config", "ProviderData.CodeChallengeMethod is written only from the operator's option", 2)
 	r.Rule("R6-hashed-on-wire", "login URL gets only hashed state/nonce; raw csrf fields have a closed reader set", 10)
 
 	a := c.cbAnchors("R1-nonce-before-validate")
@@ -38,6 +39,7 @@ func runC05(c *Ctx) {
 	runC05R3R4(c, a)
 	runC05R5(c, a)
 	runC05R6(c, a)
+	runC05R7(c)
 }
 
 func runC05R2(c *Ctx, a *cbAnchors) {
@@ -603,5 +605,52 @@ func runC05R6(c *Ctx, a *cbAnchors) {
 				c.bad(rule, key, ref.In, "raw SessionState.Nonce is read outside CheckNonce", nil, 0)
 			}
 		}
+	}
+}
+
+// runC05R7: the PKCE method in force is exactly the operator's option.
+func runC05R7(c *Ctx) {
+	rule := "R7-method-from-config"
+	methodF := c.Field(rule, "providers.ProviderData.CodeChallengeMethod")
+	optF := c.Field(rule, "pkg/apis/options.Provider.CodeChallengeMethod")
+	parse := c.Fn(rule, "providers.parseCodeChallengeMethod")
+	if methodF == nil || optF == nil || parse == nil {
+		return
+	}
+	for _, ref := range c.fieldRefs(methodF) {
+		if ref.Kind != "store" {
+			if ref.Kind == "addr" {
+				c.bad(rule, "addr|"+fnKey(ref.Fn), ref.In, "the address of ProviderData.CodeChallengeMethod escapes", nil, 0)
+			}
+			continue
+		}
+		key := "store|" + fnKey(ref.Fn)
+		okSrc := true
+		for _, o := range c.origins(ref.Store.Val, 0) {
+			if call, ok := o.(*ssa.Call); ok && call.Call.StaticCallee() == parse {
+				continue
+			}
+			if isFieldLoadOf(o, optF) || isFieldValueOf(o, optF) {
+				continue
+			}
+			okSrc = false
+		}
+		if okSrc {
+			c.ok(rule, key, ref.In, "CodeChallengeMethod = parseCodeChallengeMethod(providerConfig)")
+		} else {
+			c.bad(rule, key, ref.In, "the PKCE method in force is overwritten by something other than the operator's --code-challenge-method (e.g. cleared from discovery data): authorization requests silently lose their challenge", nil, 0)
+		}
+	}
+	// parseCodeChallengeMethod returns the option or ""
+	okParse := returnsOnly(parse, 0, func(v ssa.Value) bool {
+		if s, ok := ConstString(v); ok && s == "" {
+			return true
+		}
+		return isFieldLoadOf(v, optF) || isFieldValueOf(v, optF)
+	})
+	if okParse {
+		c.ok(rule, "parse|"+fnKey(parse), parse.Blocks[0].Instrs[0], "returns the configured method or \"\"")
+	} else {
+		c.bad(rule, "parse|"+fnKey(parse), parse.Blocks[0].Instrs[0], "parseCodeChallengeMethod returns something other than the configured method", nil, 0)
 	}
 }
